@@ -1802,9 +1802,9 @@ rv = .false.
                     # Explicit declarations from fc_statements.
                     for line in f_intent_blk.arg_decl:
                         append_format(arg_f_decl, line, fmt_arg)
-                    if f_result_blk.arg_name:
-                        for aname in f_result_blk.arg_name:
-                            append_format(arg_f_names, aname, fmt_result)
+                    if f_intent_blk.arg_name:
+                        for aname in f_intent_blk.arg_name:
+                            append_format(arg_f_names, aname, fmt_arg)
                     else:
                         arg_f_names.append(fmt_arg.f_var)
                 else:
